@@ -201,6 +201,13 @@ def w1(ctx, Fr, F):
                         oks.append(all(v is not None and 0 <= v[0] and v[1] <= 7 for v in vals))
                         found.setdefault("args", []).append(vals)
                     ok = bool(calls) and all(oks)
+                    if not ok:
+                        # fall back to the interval analysis (S4): argument ranges at the call
+                        from . import ranges
+                        ra = ranges.Analysis(fn).run()
+                        iv = ra.args_at_call(bi)
+                        found["intervals"] = iv
+                        ok = len(iv) == 2 and all(v is not None and 0 <= v[0] and v[1] <= 7 for v in iv)
                 elif c == "arrayvec::ArrayVec::<T, CAP>::push" and p == NEW:
                     # the state stack of the Game being built: created by ArrayVec::new() in the struct literal, pushed once
                     news = [x for x in fn["mir"]["blocks"] if x["term"]["k"] == "Call" and mir.callee(x["term"]) == "arrayvec::ArrayVec::<T, CAP>::new"]
@@ -223,6 +230,7 @@ def w1(ctx, Fr, F):
                 if b["term"]["k"] == "Assert" and b["term"]["msg"].startswith("Overflow"):
                     debug_only += 1
     ctx.extra["debug_only_overflow_asserts_reachable_from_importer"] = debug_only
+    w1_ranges(ctx, F)
     ctx.note("%d overflow asserts exist only in overflow-checking builds; the values they guard reach no index or constructor "
              "(every square is built with the checked Position::new)" % debug_only)
 
@@ -453,3 +461,47 @@ def w7(ctx, F):
         okp = not tries and bool(prints)
     ctx.check("C17.W7", "session-continues-after-a-refused-fen", okp, fn=ut["path"], file=ut["file"],
               what="the command loop must print `error: ...` and keep running after a refused position", found=okp)
+
+
+# overflow asserts of the importer that no interval argument can discharge, with the assumption that covers them
+ASSUMED = {
+    ("Overflow:Add", "score"): "running i16 score accumulation: needs the sane-material assumption (debug builds only; release wraps harmlessly)",
+}
+
+
+def w1_ranges(ctx, F):
+    """Overflow-checking configuration: every arithmetic assert inside Game::new itself (the importer's own arithmetic on input-derived
+    values) is discharged by the interval analysis (S4), except the enumerated assumption."""
+    from . import ranges
+    fn = F.fn(NEW)
+    if not F.d.get("overflow_checks"):
+        return   # this fact set has no overflow asserts (release configuration)
+    a = ranges.Analysis(fn).run()
+    n = 0
+    seen = {}
+    for b, msg, ok, detail, line in a.obligations:
+        if not msg.startswith("Overflow"):
+            continue
+        n += 1
+        t = a.cfg.blocks[b]["term"]
+        nm = None
+        for x in t["ops"]:
+            if x.get("k") in ("copy", "move"):
+                l = x["place"]["l"]
+                nm = a.cfg.local_name(l)
+                if nm is None:
+                    d = a.def1.get(l)
+                    if d and d[0] == "rv" and d[1]["k"] == "Use" and d[1]["op"].get("k") in ("copy", "move"):
+                        nm = a.cfg.local_name(d[1]["op"]["place"]["l"])
+                if nm:
+                    break
+        key = "%s(%s)" % (msg, nm or "temp")
+        seen[key] = seen.get(key, 0) + 1
+        assumed = ASSUMED.get((msg, nm))
+        if assumed and not ok:
+            ctx.assume("C17.W1: %s" % assumed)
+        ctx.check("C17.W1", "importer-arithmetic-in-range:%s#%d" % (key, seen[key]), ok or bool(assumed), fn=NEW, file=fn["file"], line=line,
+                  what="arithmetic on an input-derived value in the FEN importer can overflow (panics in overflow-checking builds, wraps "
+                       "into a wrong square/count otherwise): the interval analysis cannot bound it",
+                  expected="operand ranges keep the result inside the type", found=detail)
+    ctx.floor("C17.W1", "arithmetic asserts in Game::new (overflow-checking configuration)", n, 5)
